@@ -195,7 +195,7 @@ def main(tier):
         return 1 if (res['x'] or crash_class(res)) else 0
     h = make_harness()
     ex = Explorer('C14', tier, h, 'e2', 'c14.py')
-    ex.deadline = time.time() + (110 if tier == 'quick' else 560)
+    ex.deadline = time.time() + (240 if tier == 'quick' else 900)
     ex.mode = 'e1'; run_e1(ex)
     ex.mode = 'e3'; run_e3(ex, tier)
     ex.mode = 'e2'
